@@ -20,7 +20,7 @@ ID = "C17"
 LEVEL = "exploration"
 RULE = ("objects = LASFiles built in memory or read back from text (mnemonic_case preserve/upper/lower) from seeded "
         "specs with duplicated, blank and case-variant mnemonics in ~W/~P/~C/custom sections, float and text curves, "
-        "a deterministic grid of duplicate layouts, and every readable corpus file; each object x {pickle protocol "
+        "string curves whose samples all look numeric, post-deletion states with stale suffixes, a deterministic grid of duplicate layouts, and every readable corpus file; each object x {pickle protocol "
         "0..5, deepcopy} x {whole LASFile, every section, every item}. distinct = distinct (object spec, method); "
         "non-trivial = object with at least one disambiguated (duplicate or blank) mnemonic")
 ASSUMPTIONS = ["write() output is compared only when the original itself can be written",
@@ -42,6 +42,11 @@ for sect in ("well", "params", "curves", "custom"):
 
 
 def grid(tier):
+    import random
+    for k in range(24):
+        rng = random.Random("C17grid%d" % k)
+        yield {"kind": "spec", "spec": lasobj.rand_spec(rng, text_curve=0.0, min_curves=3), "via": None, "methods": METHODS,
+               "variant": ["numeric_text_curve", "stale_suffix"][k % 2]}
     for sect, names in GRID_SPECS:
         for via in (None, "preserve", "upper", "lower"):
             yield {"kind": "layout", "section": sect, "names": names, "via": via}
@@ -56,7 +61,7 @@ def n_random(tier):
 def random_case(rng, tier):
     spec = lasobj.rand_spec(rng)
     via = rng.choice([None, None, "preserve", "upper", "lower"])
-    return {"kind": "spec", "spec": spec, "via": via, "methods": rng.sample(METHODS, 3)}
+    return {"kind": "spec", "spec": spec, "via": via, "methods": rng.sample(METHODS, 3), "seed_variant": rng.randrange(4)}
 
 
 def layout_spec(section, names):
@@ -107,7 +112,26 @@ def run_case(case, ctx):
         if via and (case["kind"] == "layout" or text_can_carry(spec)) and not _has_custom_or_textcurve(spec):
             spec["via_text"] = {"read": {"mnemonic_case": via}}
         methods = case.get("methods", METHODS)
-        rebuild = lambda: lasobj.build(lasio, spec)
+        variant = case.get("variant") or ("none" if case["kind"] == "layout" else ["none", "numeric_text_curve", "stale_suffix", "none"][case.get("seed_variant", 0) % 4])
+
+        def rebuild():
+            las = lasobj.build(lasio, spec)
+            if variant == "numeric_text_curve" and len(las.curves) >= 2:
+                c = las.curves[1]
+                if np.asarray(c.data).dtype.kind == "f":
+                    # a *string* curve whose samples all look numeric, assigned directly (as read(dtypes=str) or update_curve do)
+                    c.data = np.array(["%.2f" % x if x == x else "nan" for x in np.asarray(c.data, dtype=float)])
+            if variant == "stale_suffix":
+                # delete the first member of every duplicate family: the survivors keep their (now stale) suffixes
+                for sec in las.sections.values():
+                    if isinstance(sec, str):
+                        continue
+                    items = secops.raw_items(sec)
+                    for i, it in enumerate(items):
+                        if it.mnemonic.endswith(":1") and len(items) > 2:
+                            del sec[i]
+                            break
+            return las
         try:
             las = rebuild()
         except Exception as e:
